@@ -58,85 +58,64 @@ impl InstructionGenerator {
         match step {
             Some(s) => {
                 let step_pos = s.pos();
-                // load 0 to B
-                self.push_load(Variant::VInteger(0), pos);
-                self.push(Instruction::CopyAToB, pos);
                 // load step to A
                 self.generate_expression_instructions(s);
                 // A to D (step is in D)
                 self.push(Instruction::CopyAToD, pos);
-                // is step < 0 ?
-                self.push(Instruction::Less, pos);
-                self.jump_if_false("test-positive-or-zero", pos);
-                // negative step
-                self.generate_for_loop_instructions_positive_or_negative_step(
-                    &counter_var_name,
-                    statements.clone(),
-                    false,
-                    pos,
-                );
-                // jump out
-                self.jump("out-of-for", pos);
-                // PositiveOrZero: ?
-                self.label("test-positive-or-zero", pos);
-                // need to load it again into A because the previous "LessThan" op overwrote A
+                // is step = 0 ?
+                self.push_load(Variant::VInteger(0), pos);
+                self.push(Instruction::CopyAToB, pos);
                 self.push(Instruction::CopyDToA, pos);
-                // is step > 0 ?
-                self.push(Instruction::Greater, pos);
-                self.jump_if_false("zero", pos);
-                // positive step
-                self.generate_for_loop_instructions_positive_or_negative_step(
-                    &counter_var_name,
-                    statements,
-                    true,
-                    pos,
-                );
-                // jump out
-                self.jump("out-of-for", pos);
+                self.push(Instruction::Equal, pos);
+                self.jump_if_false("non-zero-step", pos);
                 // Zero step
-                self.label("zero", pos);
                 self.push(Instruction::Throw(RuntimeError::ForLoopZeroStep), step_pos);
-                self.label("out-of-for", pos);
+                self.label("non-zero-step", pos);
+                self.generate_for_loop_body_instructions(&counter_var_name, statements, true, pos);
             }
             None => {
                 self.push_load(Variant::VInteger(1), pos);
                 // A to D (step is in D)
                 self.push(Instruction::CopyAToD, pos);
-                self.generate_for_loop_instructions_positive_or_negative_step(
-                    &counter_var_name,
-                    statements,
-                    true,
-                    pos,
-                );
-                self.label("out-of-for", pos);
+                self.generate_for_loop_body_instructions(&counter_var_name, statements, false, pos);
             }
         }
     }
 
-    fn generate_for_loop_instructions_positive_or_negative_step(
+    /// Generates the loop test, the body (once) and the increment.
+    /// If the step can be negative, its sign is tested on every iteration
+    /// in order to pick the direction of the comparison.
+    fn generate_for_loop_body_instructions(
         &mut self,
         counter_var_name: &Expression,
         statements: Statements,
-        is_positive: bool,
+        can_be_negative: bool,
         pos: Position,
     ) {
-        let loop_label = if is_positive {
-            "positive-loop"
-        } else {
-            "negative-loop"
-        };
         // loop point
-        self.label(loop_label, pos);
+        self.label("for-loop", pos);
+        if can_be_negative {
+            // is step < 0 ?
+            self.push_load(Variant::VInteger(0), pos);
+            self.push(Instruction::CopyAToB, pos);
+            self.push(Instruction::CopyDToA, pos);
+            self.push(Instruction::Less, pos);
+            self.jump_if_false("test-positive", pos);
+            // negative step: upper bound from C to B, counter to A
+            self.push(Instruction::CopyCToB, pos);
+            self.load_counter(counter_var_name, pos);
+            self.push(Instruction::GreaterOrEqual, pos);
+            self.jump_if_false("out-of-for", pos);
+            self.jump("for-body", pos);
+            self.label("test-positive", pos);
+        }
         // upper bound from C to B
         self.push(Instruction::CopyCToB, pos);
         // counter to A
         self.load_counter(counter_var_name, pos);
-        if is_positive {
-            self.push(Instruction::LessOrEqual, pos);
-        } else {
-            self.push(Instruction::GreaterOrEqual, pos);
-        }
+        self.push(Instruction::LessOrEqual, pos);
         self.jump_if_false("out-of-for", pos);
+        self.label("for-body", pos);
 
         // push registers
         self.push(Instruction::PushRegisters, pos);
@@ -156,7 +135,8 @@ impl InstructionGenerator {
         self.store_counter(counter_var_name, pos);
 
         // back to loop
-        self.jump(loop_label, pos);
+        self.jump("for-loop", pos);
+        self.label("out-of-for", pos);
     }
 
     pub fn generate_do_loop_instructions(&mut self, do_loop: DoLoop, pos: Position) {
